@@ -545,7 +545,15 @@ def imbed_aggr(rf, env):
     b = _strip(_body(rf, r"void\s+PushPastImbedAggr\s*\(", "PushPastImbedAggr"))
     rec = len(re.findall(r"PushPastImbedAggr\s*\(", b))
     m = re.search(r"\bchar\s+messageBuf\s*\[\s*([^\]]+)\]\s*;", b)
-    return rec > 0, (env.ev(m.group(1)) if m else 0)
+    # does the loop end at a `;` outside a string literal (put back), i.e. stay in the record?
+    w = _ws(b)
+    if "';'" not in w:
+        stay = False
+    elif re.search(r"\}elseif\(c==';'\)\{in\.putback\(c\);break;\}else\{s\+=c;\}in\.get\(c\);\}", w):
+        stay = True
+    else:
+        raise ValueError("PushPastImbedAggr: a `;` is tested, but not as the modelled `else if( c == ';' ) { in.putback( c ); break; }`")
+    return rec > 0, (env.ev(m.group(1)) if m else 0), stay
 
 
 # sprintf( <buf>, "fmt", args ) into a fixed array, in the files the property is anchored in
@@ -714,7 +722,7 @@ def extract(repo):
     mec = max_errors(inl, sf)
     fh_cap, fh_n, fh_exit = find_header(sf, env)
     ex = export_loops(sf)
-    rec, frame = imbed_aggr(rf, env)
+    rec, frame, ia_stay = imbed_aggr(rf, env)
     sp, sp_api = sprintf_sites(repo, env)
     b = lambda v: "true" if v else "false"
     fmt_site = lambda t: (f'{{ file := "{t[0]}", line := {t[1]}, cap := {t[2]}, literal := {t[3]}, ints := {t[4]}, '
@@ -781,6 +789,9 @@ def selectAggrDeletes : DelCfg := {ad[2]}
 /-- `GetKeyword` accepts `&` as a keyword character (false: `&SCOPE` is never recognised, CreateScopeInstances always takes
 its first error exit, CreateInstance returns ENTITY_NULL) -/
 def getKeywordAcceptsAmp : Bool := {b(gk_amp)}
+
+/-- `PushPastImbedAggr` ends at a `;` outside a string literal (put back): an aggregate that is not closed does not leave the record -/
+def imbedAggrStaysInRecord : Bool := {b(ia_stay)}
 
 /-- the `);` recovery scan of `SDAI_Application_instance::STEPread`: it also ends at a semicolon outside a string literal
 (the end of the record); it puts the `;` it found back -/
